@@ -23,6 +23,11 @@ TAILS = [
     ("elem", "+", 0), ("string", "`ab`", 1), ("cstring", "«ab«", 1), ("cnumber", "»ab»", 1),
     ("twochar", "‛ab", 0), ("varset", "→x", 0), ("number", "12", 0), ("call", "@g;", 1), ("emptystr", "``", 1),
     ("lam_in_tail", "λ+;", 1),
+    ("nothing", "", 0),                       # the innermost structure is empty: the opener is the last token once closers are dropped
+    ("string_ending_in_escape", "`a\\n`", 1),   # the escape is the last thing before the (droppable) closing back-quote
+    ("string_ending_in_escaped_backquote", "`a\\``", 1),
+    ("string_ending_in_escaped_backslash", "`a\\\\`", 1),
+    ("char", "\\a", 0), ("codepage", "⁺a", 0),
 ]
 
 
